@@ -560,4 +560,47 @@ theorem encode_idx (objs : List Obj) : ∀ sg ∈ encode objs, ∀ i, segIdx? sg
 theorem hasO_encode (objs : List Obj) (i : Nat) (hi : i < objs.length) : hasO (encode objs) i = true := by
   simp [hasO, encode, List.filterMap_append, filterMap_segO_encG, filterMap_segO_encO, List.getElem?_eq_getElem hi]
 
+
+theorem onSeg_length {n : Nat} {st st1 : St} {sg : Seg} (h : onSeg n st sg = .ok st1) :
+    st1.objs.length = st.objs.length := by
+  cases sg with
+  | O idx mx nl =>
+    simp only [onSeg] at h
+    split at h
+    · simp at h
+    · split at h <;> (simp at h; subst h; simp)
+  | G idx ts =>
+    simp only [onSeg] at h
+    split at h
+    · simp at h
+    · split at h <;> (simp at h; subst h; simp)
+  | other => simp [onSeg] at h; subst h; rfl
+
+theorem readSegs_length {n : Nat} : ∀ (segs : List Seg) (st st' : St), readSegs n st segs = .ok st' →
+    st'.objs.length = st.objs.length := by
+  intro segs
+  induction segs with
+  | nil => intro st st' h; simp [readSegs] at h; subst h; rfl
+  | cons sg segs ih =>
+    intro st st' h
+    simp only [readSegs] at h
+    cases h1 : onSeg n st sg with
+    | error e => simp [h1] at h
+    | ok st1 =>
+      simp only [h1] at h
+      rw [ih _ _ h, onSeg_length h1]
+
+/-- a failing segment loop has met an objective segment whose index is not below the header count -/
+theorem readSegs_error_idx {n : Nat} (segs : List Seg) (st : St) (e : Err) (h : readSegs n st segs = .error e) :
+    ∃ sg ∈ segs, ∃ i, segIdx? sg = some i ∧ n ≤ i := by
+  apply Classical.byContradiction
+  intro hno
+  have hall : ∀ sg ∈ segs, ∀ i, segIdx? sg = some i → i < n := by
+    intro sg hsg i hi
+    apply Classical.byContradiction
+    intro hlt
+    exact hno ⟨sg, hsg, i, hi, by omega⟩
+  obtain ⟨st', h'⟩ := readSegs_total segs st hall
+  rw [h'] at h; simp at h
+
 end MpVerif.C12
